@@ -1,0 +1,50 @@
+//go:build verif
+
+package types
+
+// C13 (parameter side): what Params.Validate and the per-field validators of the legacy x/params route accept.
+// The mint formula bonded x RewardCoefficient% x elapsed / year must not be negative, so the property needs
+// "accepted ==> RewardCoefficient >= 0" (clauses c13p_coefficient_nonneg) on top of what the code documents.
+
+/*@
+specfunc ok_mintdenom(s string) bool = str_trim(s) != "" && validate_denom(s) == nil
+specfunc ok_coefficient(v int) bool = v >= 0
+
+// the package-level variable DefaultMintDenom (the engine names the value of a package variable glob_<pkg>_<Var>)
+const glob_types_DefaultMintDenom string
+
+func validateMintDenom
+    ensures c13p_iff: result == nil <==> (typeis(i, "string") && ok_mintdenom(unbox(i, "string")))
+
+func validateBool
+    ensures c13p_iff: result == nil <==> typeis(i, "bool")
+
+func validateRewardCoefficient
+    ensures c13p_type: result == nil ==> typeis(i, "cosmossdk.io/math.LegacyDec")
+    ensures c13p_accepts: typeis(i, "cosmossdk.io/math.LegacyDec") && ok_coefficient(unbox(i, "cosmossdk.io/math.LegacyDec")) ==> result == nil
+    // property level: a negative coefficient must not be accepted
+    ensures c13p_coefficient_nonneg: result == nil ==> ok_coefficient(unbox(i, "cosmossdk.io/math.LegacyDec"))
+
+func (Params).Validate
+    ensures c13p_denom: result == nil ==> ok_mintdenom(p.MintDenom)
+    ensures c13p_accepts: ok_mintdenom(p.MintDenom) && ok_coefficient(p.RewardCoefficient) ==> result == nil
+    // property level: a negative coefficient must not be accepted
+    ensures c13p_coefficient_nonneg: result == nil ==> ok_coefficient(p.RewardCoefficient)
+
+func NewParams
+    ensures c13p_fields: result.MintDenom == mintDenom && result.RewardCoefficient == rewardsCoefficient && result.EnableCoinomics == enableCoinomics
+
+// 7.8 (percent per year), coinomics enabled, the default denom
+func DefaultParams
+    ensures c13p_fields: result.MintDenom == glob_types_DefaultMintDenom && result.RewardCoefficient == 7800000000000000000 && result.EnableCoinomics
+
+// DefaultParams().Validate() == nil, given that DefaultMintDenom still holds its initialiser "aISLM" (it is never reassigned)
+func verifDefaultParamsValid
+    requires default_denom: glob_types_DefaultMintDenom == "aISLM"
+    ensures c13p_default_valid: result == nil
+@*/
+
+// verifDefaultParamsValid: ghost composition DefaultParams().Validate().
+func verifDefaultParamsValid() error {
+	return DefaultParams().Validate()
+}
